@@ -503,6 +503,23 @@ def b_vec_intoiter(ex, st, a, m, c):
     return it("vecinto", a[0], 0)
 
 
+@builtin(r" as IntoIterator>::into_iter$", "IntoIterator: identity on iterator models, by-value Vec, slice reference; crate impls are executed from their MIR")
+def b_intoiter_any(ex, st, a, m, c):
+    v = a[0]
+    if isinstance(v, Agg) and v.kind.startswith("iter:"):
+        return v
+    if isinstance(v, Agg) and v.kind == "vec":
+        return it("vecinto", v, 0)
+    f = ex.find_mir(c, a, st)
+    if f is not None:
+        return ex.call_fn(st, f, a, st.frames[-1].generics if st.frames else {})
+    if isinstance(v, Ref):
+        tgt = ex.load(st, v)
+        if isinstance(tgt, Agg) and tgt.kind in ("vec", "array"):
+            return it("slice", v, 0)
+    raise Unsupported("into_iter on %r" % (v,))
+
+
 @builtin(r" as Iterator>::map::<", "Iterator::map")
 def b_map(ex, st, a, m, c):
     return it("map", a[0], a[1])
